@@ -229,7 +229,20 @@ def searchIncomplete (r : Reader) (pos : RecordPos) : Reader × Res (Option Reco
 /-- `Reader::check_end` -/
 def checkEnd (r : Reader) (pos : RecordPos) : Reader × Res Bool :=
   if pos = .qual then
-    validated { r with bp := { r.bp with pos1 := r.br.buf.length } }
+    match validate { r with bp := { r.bp with pos1 := r.br.buf.length } } with
+    | (r, .ok ()) =>
+      -- the quality line has no terminator here: the actual lengths decide
+      match seq r.br.buf r.bp, qual r.br.buf r.bp with
+      | some sq, some ql =>
+        if sq.length ≠ ql.length then
+          match getErrorPos r 0 true with
+          | none => (r, .panic)
+          | some p => (r, .err (.unequalLengths sq.length ql.length p))
+        else (r, .ok true)
+      | _, _ => (r, .panic)
+    | (r, .err e) => (r, .err e)
+    | (r, .panic) => (r, .panic)
+    | (r, .fuel) => (r, .fuel)
   else
     if r.bp.pos0 ≤ r.br.buf.length then
       let rest := r.br.buf.drop r.bp.pos0
